@@ -530,6 +530,10 @@ func float64ToBigFloat(val float64, dest *big.Float) error {
 		return errValueOutOfRange(val)
 	} else {
 		dest.SetFloat64(val)
+		if dest.Acc() != big.Exact {
+			// the destination has a precision too small to hold the value exactly
+			return errValueOutOfRange(val)
+		}
 		return nil
 	}
 }
